@@ -29,6 +29,11 @@ type behaviour struct {
 
 type customPanic struct{ Code int }
 
+// nilRecvError's Error method dereferences its (nil) receiver: formatting the panic value panics.
+type nilRecvError struct{ msg string }
+
+func (e *nilRecvError) Error() string { return e.msg }
+
 // greedyError claims to match every target of errors.Is.
 type greedyError struct{}
 
@@ -53,6 +58,7 @@ var behaviours = []behaviour{
 	{Name: "panic(error)", Fails: true, NonStringPanic: true, Do: func(t *f1testing.T) { panic(errSentinel) }},
 	{Name: "panic(wrapped error)", Fails: true, NonStringPanic: true, Do: func(t *f1testing.T) { panic(fmt.Errorf("wrapped: %w", errSentinel)) }},
 	{Name: "panic(error matching every errors.Is target)", Fails: true, NonStringPanic: true, Do: func(t *f1testing.T) { panic(greedyError{}) }},
+	{Name: "panic(error whose Error() panics)", Fails: true, NonStringPanic: true, Do: func(t *f1testing.T) { var e *nilRecvError; panic(error(e)) }},
 	{Name: "panic(string)", Fails: true, Do: func(t *f1testing.T) { panic("boom") }},
 	{Name: "panic(struct)", Fails: true, NonStringPanic: true, Do: func(t *f1testing.T) { panic(customPanic{Code: 7}) }},
 	{Name: "panic(int)", Fails: true, NonStringPanic: true, Do: func(t *f1testing.T) { panic(42) }},
